@@ -1256,7 +1256,8 @@ struct Socks
 		// handler (that is a connect-path matter, not a property of the proxy)
 		for (auto& kv : net.out_spec) if (kv.second.empty()) kv.second.push_back(queue_hop(0, 0, 0));
 		// loss-free world: queues never drop
-		for (auto* m : {&net.out_spec, &net.in_spec}) for (auto& kv : *m) for (auto& h : kv.second) { h.cap = 0; h.kind = HopSpec::Queue; }
+		// (except in the one-way "soak" scenario, where the proxy's outgoing link is a small tail-drop queue)
+		for (auto* m : {&net.out_spec, &net.in_spec}) for (auto& kv : *m) for (auto& h : kv.second) { if (!plan.c("soak")) h.cap = 0; h.kind = HopSpec::Queue; }
 
 		sim.reset(new sim::simulation(net));
 		nP.reset(new asio::io_context(*sim, aP));
@@ -1460,6 +1461,30 @@ struct SocksEngine : Engine
 			for (int i = 0; i < 3; ++i)
 			{
 				Op o; o.op = rng.chance(0.5) ? "cw" : "tw"; o.a = 1; o.b = int64_t(rng.below(uint64_t(k_nsizes))); o.c = 0; p.ops.push_back(o);
+			}
+			return p;
+		}
+		if (cls == 0 && rng.chance(0.03))
+		{
+			// a long one-way transfer through a proxy whose outgoing link is a small tail-drop queue (payload towards the target
+			// and acknowledgements towards the client share it): the relay gets through however many packets that link has carried
+			p.cfg["flags"] = 0;
+			p.cfg["mtu_cp"] = 1475; p.cfg["mtu_pt"] = 1475;
+			for (char const* pre : {"co", "ci", "po", "pi", "to", "ti"})
+			{
+				std::string const q = std::string(pre);
+				p.cfg[q + "n"] = 1; p.cfg[q + "0bw"] = 0; p.cfg[q + "0lat"] = rng.pick(std::vector<int64_t>{1000000, 5000000});
+			}
+			p.cfg["po0cap"] = rng.pick(std::vector<int64_t>{3100, 4000, 6000});
+			p.cfg["soak"] = 1;
+			Op o;
+			o.op = "conn";
+			o.a = int64_t(rng.below(2)); // version 5 or 4, CONNECT by IPv4, the target accepts
+			o.b = 8; o.c = 0; o.at = 0;
+			p.ops.push_back(o);
+			for (int i = 0; i < 6; ++i)
+			{
+				Op w; w.op = "cw"; w.a = 0; w.b = 1000 + rng.range(20000, 40000); w.c = 0; p.ops.push_back(w);
 			}
 			return p;
 		}
